@@ -260,6 +260,12 @@ func coreKinds() []coreKind {
 			c, _ := buffered(4096)(w, lvl, msg)
 			return zapcore.NewTee(zapcore.NewSamplerWithOptions(inner, time.Hour, 0, 0), c), nil
 		}},
+		{name: "tee(io-buffered,sampler-drops-all)", cond: condConst(condEnabled), build: func(w *world, lvl zapcore.Level, msg string) (zapcore.Core, []zap.Option) {
+			// the accepting branch FIRST: a later branch that declines must not take it off the checked entry
+			inner := zapcore.NewCore(newEncoder(), zapcore.Lock(w.newSink("a", never)), zapcore.DebugLevel)
+			c, _ := buffered(4096)(w, lvl, msg)
+			return zapcore.NewTee(c, zapcore.NewSamplerWithOptions(inner, time.Hour, 0, 0)), nil
+		}},
 		{name: "sampler-passes(first=100)-over-io-buffered", cond: condConst(condEnabled), build: func(w *world, lvl zapcore.Level, msg string) (zapcore.Core, []zap.Option) {
 			c, _ := buffered(4096)(w, lvl, msg)
 			return zapcore.NewSamplerWithOptions(c, time.Hour, 100, 100), nil
